@@ -591,6 +591,19 @@ pub fn gen_and_run(seed: u64, index: u64, scratch: &str, cfg: &GenCfg, fenced: &
             layout.links.push(f);
         }
     }
+    // one directory reachable under two names: a directory of value-only files (nothing that
+    // could clash by name when it is seen twice) and an alias for it that sorts before or after
+    let mut files = files;
+    let mut xfaults = xfaults;
+    if layout.src.as_deref() != Some(".") && layout.links.is_empty() && layout.src_file.is_none() && files.len() <= 3 && !(layout.target.as_deref() == Some("src") && layout.src.is_none()) && rng.chance(1, 7) {
+        let alias = if rng.chance(1, 2) { "aalias" } else { "zalias" };
+        let text = format!("def shval{} := {}\nprint(\"shared\")\n", rng.below(90), rng.below(90));
+        files.push(SrcFile { path: "shared/inc.mamba".into(), text: text.clone() });
+        files.push(SrcFile { path: format!("{alias}/inc.mamba"), text });
+        xfaults.push(None);
+        xfaults.push(None);
+        layout.aliases.push((alias.to_string(), "shared".to_string()));
+    }
     // files elsewhere in the project directory that must be ignored
     let mut outside: Vec<SrcFile> = vec![];
     if layout.src.as_deref() != Some(".") {
@@ -1134,6 +1147,9 @@ pub fn minimise(sc: &C13Scenario, class: &str, scratch: &str, budget: &mut usize
         c.layout.links.clear();
         attempt(c, &mut best, budget);
         let mut c = best.clone();
+        c.layout.aliases.clear();
+        attempt(c, &mut best, budget);
+        let mut c = best.clone();
         c.session = false;
         attempt(c, &mut best, budget);
         let mut c = best.clone();
@@ -1418,6 +1434,7 @@ pub fn run_check(tier_name: &str, seed: u64, verif_dir: &str) -> i32 {
             "overwrote_longer_file": stats.overwrote_longer,
             "steps_with_obstacle_in_output_dir": stats.steps_with_obstacle,
             "source_paths_materialised_as_symlinks": stats.linked_sources,
+            "alias_directories_materialised": stats.alias_directories,
             "deleted_in_target_tolerated": stats.deleted_in_target_tolerated,
             "single_faulty_file_rejections_checked": stats.single_faulty_rejected,
             "single_faulty_by_kind": stats.faulty_kinds_checked,
